@@ -68,8 +68,9 @@ func (u *User) Read(p []byte) (int, error) {
 		return 0, io.EOF // All bytes have been read
 	}
 
-	n := copy(p, b)
-	u.readOffset = n
+	// Continue from where the previous Read stopped; the buffer may be smaller than the record.
+	n := copy(p, b[u.readOffset:])
+	u.readOffset += n
 
 	return n, nil
 }
